@@ -609,6 +609,56 @@ theorem a85_ahx_translated (data : Bytes) :
 example : ahxNeedsPad 3 = true ∧ ahxNeedsPad 4 = false := by decide
 example : asciihexdecode [52, 32, 49, 55, 62, 55] = .ok [0x41, 0x70] := by decide
 
+/-- CPython's `base64.a85decode` (translated from the source of the running interpreter): it is called
+with `foldspaces = adobe = False`; one iteration of the model's loop is the translated `if` chain
+(digit range, group length, `85 * acc + (x - 33)`, the `z` group, `ignorechars`), and the model's
+final step uses the translated padding bytes and `padding = 4 - len(curr)`. -/
+theorem a85decode_translated (curr : List Nat) (x : UInt8) (rest b : Bytes) :
+    A85_FOLDSPACES = false ∧ A85_ADOBE = false ∧
+    a85loop curr (x :: rest) =
+      (if a85IsDigit x.toNat then
+         (if (curr ++ [x.toNat]).length == A85_GROUP then
+            (if (curr ++ [x.toNat]).foldl a85Step 0 ≥ 4294967296 then .error .valueError
+             else match a85loop [] rest with
+               | .ok (out, c) => .ok (be32 ((curr ++ [x.toNat]).foldl a85Step 0) ++ out, c)
+               | .error e => .error e)
+          else a85loop (curr ++ [x.toNat]) rest)
+       else if x.toNat == A85_Z then
+         (if !curr.isEmpty then .error .valueError
+          else match a85loop [] rest with
+            | .ok (out, c) => .ok (A85_ZGROUP ++ out, c)
+            | .error e => .error e)
+       else if A85_IGNORECHARS.contains x then a85loop curr rest
+       else .error .valueError) ∧
+    a85decode b =
+      (match a85loop [] (b ++ A85_PAD) with
+       | .error e => .error e
+       | .ok (res, curr) =>
+         .ok (if a85Padding curr.length != 0 then res.take (res.length - a85Padding curr.length) else res)) := by
+  refine ⟨rfl, rfl, ?_, ?_⟩
+  · have hz : (x == 122) = decide (x.toNat = 122) := u8_beq_toNat x 122 (by omega)
+    have hacc : ∀ l : List Nat, a85acc l = l.foldl a85Step 0 := fun l => rfl
+    have hig : isA85Ignore x = A85_IGNORECHARS.contains x := by
+      simp only [isA85Ignore, A85_IGNORECHARS, List.contains_cons, List.contains_nil, Bool.or_false, Bool.or_assoc]
+    have hdig : a85IsDigit x.toNat = decide (33 ≤ x.toNat ∧ x.toNat ≤ 117) := by
+      simp [a85IsDigit]
+    simp only [a85loop, hz, hacc, hig, hdig, decide_eq_true_eq, beq_iff_eq, A85_GROUP, A85_Z, A85_ZGROUP]
+    by_cases hd : 33 ≤ x.toNat ∧ x.toNat ≤ 117
+    · simp only [hd, if_true, and_self]
+      cases a85loop [] rest with
+      | error e => rfl
+      | ok p => rfl
+    · simp only [hd, if_false]
+      cases a85loop [] rest with
+      | error e => rfl
+      | ok p => rfl
+  · simp only [a85decode, A85_PAD, a85Padding]
+    cases a85loop [] (b ++ [117, 117, 117, 117]) with
+    | error e => rfl
+    | ok p => rfl
+
+example : a85IsDigit 33 = true ∧ a85IsDigit 117 = true ∧ a85IsDigit 118 = false ∧ a85Step 1 34 = 86 ∧ a85Padding 2 = 2 := by decide
+
 /-- pdftypes.py, `PDFStream._decode`: the predictor dispatch of the model is the translated
 `if pred == 1 / elif pred == 2 / elif pred >= 10 / else` chain (0 = none, 1 = TIFF, 2 = PNG,
 3 = `PDFNotImplementedError`) with the translated defaults of Colors / Columns / BitsPerComponent. -/
